@@ -334,9 +334,10 @@ type node struct {
 	maxLibNo uint64
 	lastNo   uint64
 	ops      []string
-	taint    bool           // a LIB taken from a stale entry was reported (known class): later consequences on this node carry it
-	updated  map[*sblk]bool // every block the chain service ever passed to Status.Update
-	failedRF map[*sblk]bool // blocks rolled forward in a reorganisation whose roll-forward failed
+	taint    bool             // a LIB taken from a stale entry was reported (known class): later consequences on this node carry it
+	updated  map[*sblk]bool   // every block the chain service ever passed to Status.Update
+	failedRF map[*sblk]bool   // blocks rolled forward in a reorganisation whose roll-forward failed
+	libClass map[*sblk]string // off-chain LIB block -> the class its adoption as LIB showed
 }
 
 func (b *sblk) isAncestorOf(x *sblk) bool {
@@ -349,7 +350,7 @@ func (b *sblk) isAncestorOf(x *sblk) bool {
 func (w *world) newNode(self int) *node {
 	w.nnode++
 	n := &node{w: w, dir: filepath.Join(w.root, fmt.Sprintf("n%d", w.nnode)), known: map[*sblk]bool{}, declared: map[*sblk]bool{},
-		tsOK: map[*sblk]bool{}, updated: map[*sblk]bool{}, failedRF: map[*sblk]bool{}}
+		tsOK: map[*sblk]bool{}, updated: map[*sblk]bool{}, failedRF: map[*sblk]bool{}, libClass: map[*sblk]string{}}
 	os.RemoveAll(n.dir)
 	for _, sub := range []string{"chain", "state"} {
 		copyFile(filepath.Join(w.tmpl, sub, "database"), filepath.Join(n.dir, sub, "database"))
@@ -678,6 +679,15 @@ func (n *node) check(arrived *sblk) {
 			}
 			if lb != nil && n.failedRF[lb] {
 				class = classFailedRF
+			}
+			// the SAME off-chain LIB block reported again later (the entry it was taken from may have been overwritten meanwhile): the
+			// class belongs to that block's adoption as LIB, not to the node
+			if lb != nil {
+				if class != "" {
+					n.libClass[lb] = class
+				} else {
+					class = n.libClass[lb]
+				}
 			}
 			w.run.Count("lib-off-chain class=" + class)
 			w.run.FailKnown(fmt.Sprintf("reported LIB %s is not a block of the node's main chain (after %s; main chain has %s at %d)",
